@@ -1,4 +1,5 @@
 import VtProofs.JsonGrammar
+import VtProofs.TileJson
 /-!
 # C17 — JSON round trips and containers hand back the TileJSON they were given
 
@@ -106,5 +107,93 @@ example : parseBytes demoOps (stringify demoOps demoValue) = .ok demoValue :=
   parse_stringify demoOps demoLaws demoValue (by
     simp only [demoValue, WF, WFL, WFM, SortedKeys, and_true, List.pairwise_cons, List.Pairwise.nil]
     decide)
+
+/-! ### TileJSON: `update_from_pyramid` only narrows -/
+
+section tilejson
+open VtModel.TileJson VtProofs.TileJson
+variable {M : Type} (nu : TjNum M)
+
+/-- the document fields that `update_from_pyramid` must not touch -/
+theorem update_frame (t : TileJSON M) (bbox : Option (M × M × M × M)) (zmin zmax : Option Nat) :
+    (updateFromPyramid nu t bbox zmin zmax).center = t.center ∧
+    (updateFromPyramid nu t bbox zmin zmax).layers = t.layers ∧
+    ∀ k : Key, k ≠ kMinzoom → k ≠ kMaxzoom →
+      lookupKV k (updateFromPyramid nu t bbox zmin zmax).values = lookupKV k t.values := by
+  cases bbox <;> cases zmin <;> cases zmax <;>
+    (refine ⟨rfl, rfl, ?_⟩
+     intro k h1 h2
+     simp [updateFromPyramid, limitBBox, limitMinZoom, limitMaxZoom,
+       lookup_updateByte_other _ _ _ h1, lookup_updateByte_other _ _ _ h2])
+
+/-- **C17e (bounds)**: `bounds' = bounds ∩ b` (`b` alone when the document had none; untouched
+    when the pyramid is empty). -/
+theorem update_bounds (t : TileJSON M) (bbox : Option (M × M × M × M)) (zmin zmax : Option Nat) :
+    (updateFromPyramid nu t bbox zmin zmax).bounds =
+      match bbox, t.bounds with
+      | some b, some sb => some (intersectBox nu sb b)
+      | some b, none => some b
+      | none, old => old := by
+  cases bbox <;> cases zmin <;> cases zmax <;> cases hb : t.bounds <;>
+    simp [updateFromPyramid, limitBBox, limitMinZoom, limitMaxZoom, hb]
+
+/-- **C17e (minzoom)**: `minzoom' = max(minzoom, z)` (`z` when absent or not a byte) -/
+theorem update_minzoom (t : TileJSON M) (bbox : Option (M × M × M × M)) (z : Nat) (zmax : Option Nat) :
+    getByte? (updateFromPyramid nu t bbox (some z) zmax).values kMinzoom =
+      some (match getByte? t.values kMinzoom with | some m => Nat.max m z | none => z) := by
+  cases bbox <;> cases zmax <;>
+    simp only [updateFromPyramid, limitBBox, limitMinZoom, limitMaxZoom]
+  all_goals first
+    | exact getByte_updateByte_same _ _ _
+    | (simp only [getByte?, lookup_updateByte_other _ _ _ kMin_ne_kMax]
+       exact getByte_updateByte_same _ _ _)
+
+/-- **C17e (maxzoom)**: `maxzoom' = min(maxzoom, z)` -/
+theorem update_maxzoom (t : TileJSON M) (bbox : Option (M × M × M × M)) (zmin : Option Nat) (z : Nat) :
+    getByte? (updateFromPyramid nu t bbox zmin (some z)).values kMaxzoom =
+      some (match getByte? t.values kMaxzoom with | some m => Nat.min m z | none => z) := by
+  cases bbox <;> cases zmin <;>
+    simp only [updateFromPyramid, limitBBox, limitMinZoom, limitMaxZoom]
+  all_goals first
+    | exact getByte_updateByte_same _ _ _
+    | (rw [getByte_updateByte_same]
+       simp only [getByte?, lookup_updateByte_other _ _ _ kMin_ne_kMax.symm]
+       rfl)
+    | (rw [getByte_updateByte_same]
+       simp only [getByte?, lookup_updateByte_other _ _ _ kMin_ne_kMax.symm])
+
+/-- the zoom range never grows: `minzoom ≤ minzoom'`, `z ≤ minzoom'`, `maxzoom' ≤ maxzoom`, `maxzoom' ≤ z` -/
+theorem update_zoom_narrows (t : TileJSON M) (bbox : Option (M × M × M × M)) (z0 z1 : Nat) :
+    (∃ m', getByte? (updateFromPyramid nu t bbox (some z0) (some z1)).values kMinzoom = some m' ∧ z0 ≤ m' ∧
+        ∀ m, getByte? t.values kMinzoom = some m → m ≤ m') ∧
+    (∃ m', getByte? (updateFromPyramid nu t bbox (some z0) (some z1)).values kMaxzoom = some m' ∧ m' ≤ z1 ∧
+        ∀ m, getByte? t.values kMaxzoom = some m → m' ≤ m) := by
+  refine ⟨⟨_, update_minzoom nu t bbox z0 (some z1), ?_, ?_⟩, ⟨_, update_maxzoom nu t bbox (some z0) z1, ?_, ?_⟩⟩
+  · cases getByte? t.values kMinzoom <;> simp [Nat.le_max_right]
+  · intro m hm; simp [hm, Nat.le_max_left]
+  · cases getByte? t.values kMaxzoom <;> simp [Nat.min_le_right]
+  · intro m hm; simp [hm, Nat.min_le_left]
+
+/-- order laws of `f64::max` / `f64::min` on non-NaN values -/
+structure OrdLaws (le : M → M → Prop) : Prop where
+  le_max_left : ∀ a b, le a (nu.max a b)
+  le_max_right : ∀ a b, le b (nu.max a b)
+  min_le_left : ∀ a b, le (nu.min a b) a
+  min_le_right : ∀ a b, le (nu.min a b) b
+
+/-- the intersection lies inside both boxes: lower edges not below, upper edges not above -/
+theorem intersect_inside (le : M → M → Prop) (h : OrdLaws nu le) (a b : M × M × M × M) :
+    let r := intersectBox nu a b
+    (le a.1 r.1 ∧ le a.2.1 r.2.1 ∧ le r.2.2.1 a.2.2.1 ∧ le r.2.2.2 a.2.2.2) ∧
+    (le b.1 r.1 ∧ le b.2.1 r.2.1 ∧ le r.2.2.1 b.2.2.1 ∧ le r.2.2.2 b.2.2.2) := by
+  simp only [intersectBox]
+  exact ⟨⟨h.le_max_left _ _, h.le_max_left _ _, h.min_le_left _ _, h.min_le_left _ _⟩,
+         ⟨h.le_max_right _ _, h.le_max_right _ _, h.min_le_right _ _, h.min_le_right _ _⟩⟩
+
+/-- non-vacuity of `OrdLaws`: integers -/
+example : OrdLaws (M := Int) { ofByte := fun n => n, toByte? := fun _ => none, asU8 := fun _ => 0, max := max, min := min } (· ≤ ·) :=
+  ⟨Int.le_max_left, Int.le_max_right, Int.min_le_left, Int.min_le_right⟩
+
+end tilejson
 
 end VtProps.C17
